@@ -39,6 +39,14 @@ def fifo_case(draw, broker):
             enq(n)
         else:
             enq(n)
+            if broker == "redis" and draw(st.integers(0, 2)) == 0:
+                # a producer enqueues an id again that is still waiting (Redis keeps one stored message per id): the message keeps
+                # the place its first enqueue gave it, later arrivals do not get ahead of it
+                for _ in range(draw(st.integers(1, 3))):
+                    ops.append({"op": "enq", "q": "qf", "again": draw(st.integers(0, 30)), "client": "p0"})
+                    if draw(st.booleans()):
+                        enq(draw(st.integers(1, 2)))
+                        n = sum(1 for o in ops if o["op"] == "enq" and o.get("again") is None)
             ops.append(start)
         for _ in range(n):
             ops += [dict(consume), {"op": "ack", "c": 0, "i": 0}]
@@ -177,6 +185,8 @@ def run(case: dict) -> Outcome:
     stream = []
     for e in w.events:
         k = e["op"]["op"]
+        if k == "enq" and e.get("again"):
+            continue
         if k == "enq" and e.get("done"):
             stream.append(("enq", None, e))
         elif k == "consume" and "id" in e:
